@@ -959,9 +959,12 @@ class ParsedEvent(EDXMLEvent, etree.ElementBase):
                 '{http://edxml.org/edxml}' + attachment_name
             )
         else:
-            existing_attachments = attachments_element.findall(
-                '{http://edxml.org/edxml}' + attachment_name + f"[@id='{attachment_id}']"
-            )
+            # Note that attachment identifiers may contain quotes, so
+            # we cannot embed them in an XPath predicate.
+            existing_attachments = [
+                attachment for attachment in attachments_element.findall('{http://edxml.org/edxml}' + attachment_name)
+                if attachment.get('id') == attachment_id
+            ]
         for existing_attachment in existing_attachments:
             attachments_element.remove(existing_attachment)
 
@@ -1349,7 +1352,12 @@ class EventElement(EDXMLEvent):
         if attachment_id is None:
             existing_attachments = attachments_element.findall(attachment_name)
         else:
-            existing_attachments = attachments_element.findall(f"{attachment_name}[@id='{attachment_id}']")
+            # Note that attachment identifiers may contain quotes, so
+            # we cannot embed them in an XPath predicate.
+            existing_attachments = [
+                attachment for attachment in attachments_element.findall(attachment_name)
+                if attachment.get('id') == attachment_id
+            ]
         for existing_attachment in existing_attachments:
             attachments_element.remove(existing_attachment)
 
